@@ -17,7 +17,7 @@ timeout 600 /venv/bin/python demo.py > /tmp/advres/$(basename $D).demo_orig.log 
 git apply /tmp/advres/$(basename $D).cur.diff
 # suite with the change
 /venv/bin/python -m pytest -q -p no:cacheprovider --timeout=900 --continue-on-collection-errors -n 10 --junitxml=/tmp/advres/$(basename $D).xml > /tmp/advres/$(basename $D).suite.log 2>&1
-python3 /tmp/cmp_suite.py /tmp/advres/$(basename $D).xml > /tmp/advres/$(basename $D).cmp.txt 2>&1
+python3 /verif/tools/cmp_suite.py /tmp/advres/$(basename $D).xml > /tmp/advres/$(basename $D).cmp.txt 2>&1
 PASSING=$(head -1 /tmp/advres/$(basename $D).cmp.txt)
 echo "{\"dir\": \"$D\", \"demo_rc_with_change\": $RC_MUT, \"demo_rc_without_change\": $RC_ORIG, \"suite\": \"$PASSING\"}" > "$OUT"
 cat "$OUT"
